@@ -1,5 +1,5 @@
 #!/venv/bin/python
-"""tools/mutate.py Cxx [--n 60] [--workers 8] [--seed 0]
+"""tools/mutate.py Cxx [--n 60] [--workers 8] [--seed 0] [--only file.py:LINE:KIND[,...]]
 
 Automatic mutation campaign for one property (not part of the registered commands).
 
@@ -158,6 +158,11 @@ def mutants():
             for idx, (ln, kind, _) in enumerate(ss):
                 if ln in lines:
                     cands.append((f, fn.name, fn.lineno, idx, kind, ln))
+    only = arg("--only", "")
+    if only:
+        # --only <file-suffix>:<line>:<kind>   (run exactly these sites, e.g. mssql.py:151:and-or)
+        want = [tuple(x.split(":", 2)) for x in only.split(",")]
+        return [c for c in cands if any(c[0].endswith(w[0]) and str(c[5]) == w[1] and c[4] == w[2] for w in want)], len(cands)
     rng.shuffle(cands)
     # stratify by operator kind
     by = {}
@@ -291,6 +296,10 @@ def main():
     for r in results:
         count[r["status"]] = count.get(r["status"], 0) + 1
     os.makedirs(os.path.join(V, "mutants"), exist_ok=True)
+    if arg("--only", ""):
+        for r in results:
+            print(json.dumps({k: v for k, v in r.items() if k != "diff"}))
+        return
     json.dump({"property": PROP, "candidate_sites": total, "counts": count,
                "survivors": [r for r in results if r["status"] in ("SURVIVED", "caught-correspondence-only", "check-crashed-or-timed-out")],
                "all": [{k: v for k, v in r.items() if k != "diff"} for r in results]},
